@@ -9,6 +9,7 @@ package bcl
 //@ ghost var ev_bytes_inputs int     // number of input bytes received by the lexer so far
 //@ ghost var ev_closed_inputs bool   // the lexer has seen its input channel closed
 //@ ghost var ev_send_tokens int      // tokens sent by the lexer
+//@ ghost var ev_val_inputs string    // the chunk most recently received by the lexer
 //
 // slot of the line-table updater handed to the lexer
 //@ slot lexer.lpUpd (s string, prefix int)
@@ -27,6 +28,7 @@ package bcl
 //@   ensures [C07] decoded_from_complete_character: result != eof ==> fullrune(l.input[l.pos - l.width:]) || g.ev_closed_inputs
 //@   ensures [C07] received_only_grows: g.ev_bytes_inputs >= old(g.ev_bytes_inputs) && (old(g.ev_closed_inputs) ==> g.ev_closed_inputs)
 //@   assert [C07,C08] line_table_gets_the_absolute_offset_of_the_chunk: at slot.lexer.lpUpd: $prefix == g.ev_bytes_inputs - len($s) && $prefix >= 0
+//@   assert [C07,C08] line_table_gets_exactly_the_received_chunk: at slot.lexer.lpUpd: $s == g.ev_val_inputs
 //@   loop 1 invariant window: 0 <= l.start && l.start <= l.pos && l.pos <= len(l.input) && l.posShift + len(l.input) == g.ev_bytes_inputs && l.lpUpd == old(l.lpUpd) && l.lpUpd != nil && l.posShift >= 0
 //@   loop 1 invariant abstract_positions_kept: l.posShift + l.start == old(l.posShift + l.start) && l.posShift + l.pos == old(l.posShift + l.pos) && g.ev_bytes_inputs >= old(g.ev_bytes_inputs) && (old(g.ev_closed_inputs) ==> g.ev_closed_inputs)
-//@   modifies l.input, l.start, l.pos, l.posShift, l.width, lineCalc.lfs, g.ev_bytes_inputs, g.ev_closed_inputs
+//@   modifies l.input, l.start, l.pos, l.posShift, l.width, lineCalc.lfs, g.ev_bytes_inputs, g.ev_closed_inputs, g.ev_val_inputs
